@@ -293,20 +293,7 @@ func renderTokens(r *rand.Rand, toks []tok, density int, allowNL bool) string {
 	if density > 0 && !noTail && r.Intn(5) == 0 {
 		b.WriteString(Pick(r, []string{" ", "\n", " // end", "/* end */", "\n\n"}))
 	}
-	return fixCR(b.String())
-}
-
-// otto's skipWhiteSpace mishandles a CR whose second successor is LF (recorded finding C03-cr-lookahead,
-// pinned separately); the random renderings stay out of that region: such a CR becomes LF, which is
-// the same kind of separator (both are LineTerminators, also inside a LineContinuation)
-func fixCR(s string) string {
-	b := []byte(s)
-	for i := len(b) - 3; i >= 0; i-- { // backwards: a replacement can create the pattern two bytes earlier
-		if b[i] == '\r' && b[i+2] == '\n' && b[i+1] != '\n' {
-			b[i] = '\n'
-		}
-	}
-	return string(b)
+	return b.String()
 }
 
 func coqToks(toks []tok) string {
@@ -1213,19 +1200,52 @@ func es(e *N) *N     { return nd(tExprS, nil, e) }
 func (g *gen) pinnedPrograms() {
 	one := numLit("1")
 	two := numLit("2")
-	// 6: a CR whose second successor is LF swallows the character in between
-	g.pinCase(6, "x =\r1\n", &N{Tag: tProg, Kids: []*N{es(asg(id(3), one))}}, nil)
-	// 7: no semicolon insertion after a property named by a keyword
-	g.pinCase(7, "x = a.if\ny = 2", &N{Tag: tProg, Kids: []*N{es(asg(id(3), nd(tDot, []int64{100}, id(0)))), es(asg(id(4), two))}}, nil)
-	// 8: a semicolon on the line after var/return/throw/debugger/break L becomes an extra EmptyStatement ...
-	g.pinCase(8, "var a = 1\n;", &N{Tag: tProg, Kids: []*N{nd(tVar, nil, &N{Tag: tDecl, Vals: []int64{0}, Kids: []*N{one}})}},
-		&N{Tag: tProg, Kids: []*N{nd(tVar, nil, &N{Tag: tDecl, Vals: []int64{0}, Kids: []*N{one}}), {Tag: tEmpty}}})
-	// 9: ... which makes if (a) return\n; else ... a syntax error
-	g.pinCase(9, "function f(a){ if (a) return\n; else return 2 }", &N{Tag: tProg, Kids: []*N{{Tag: tFunDecl, Vals: []int64{34, 0}, Kids: []*N{
-		nd(tIf, nil, id(0), &N{Tag: tReturn}, nd(tReturn, nil, two))}}}}, nil)
-	// 10: the middle operand of ?: in a for initialiser may contain `in` (11.12)
-	g.pinCase(10, "for (x = a ? b in c : y;;) ;", &N{Tag: tProg, Kids: []*N{nd(tFor, nil,
-		asg(id(3), nd(tCond, nil, id(0), nd(tBin, []int64{opIn}, id(1), id(2)), id(4))), none, none, &N{Tag: tEmpty})}}, nil)
+	// regression cases of repaired defects (fixed findings 6-10): the ES5 tree is expected, nothing else is accepted
+	decl := func(ix int, init *N) *N {
+		d := &N{Tag: tDecl, Vals: []int64{int64(ix)}}
+		if init != nil {
+			d.Kids = []*N{init}
+		}
+		return d
+	}
+	prog := func(st ...*N) *N { return &N{Tag: tProg, Kids: st} }
+	fn := func(params []int64, st ...*N) *N {
+		return &N{Tag: tFunDecl, Vals: append([]int64{34}, params...), Kids: st}
+	}
+	dot := func(o *N, name string) *N { return nd(tDot, []int64{lookupName(name)}, o) }
+	a, b, c := id(0), id(1), id(2)
+	// 6723237: CR is a line terminator whatever follows it
+	g.regressCase("x =\r1\n", prog(es(asg(id(3), one))))
+	g.regressCase("x = 5\ry = 2\nx", prog(es(asg(id(3), numLit("5"))), es(asg(id(4), two)), es(id(3))))
+	g.regressCase("a\rb\n", prog(es(a), es(b)))
+	g.regressCase("a\r++\rb\n", prog(es(a), es(nd(tUn, []int64{7}, b))))
+	g.regressCase("x = a +\rb\n;", prog(es(asg(id(3), nd(tBin, []int64{19}, a, b)))))
+	g.regressCase("function f(){return\ra\n}", prog(fn(nil, &N{Tag: tReturn}, es(a))))
+	g.regressCase("// c\rx = 1\n", prog(es(asg(id(3), one))))
+	// e2af360: semicolon insertion after a property named by a reserved word
+	for _, k := range []string{"if", "in", "new", "typeof", "var", "function", "return", "do", "while", "delete", "else", "case", "instanceof", "void", "with"} {
+		g.regressCase("x = a."+k+"\ny = 2", prog(es(asg(id(3), dot(a, k))), es(asg(id(4), two))))
+		g.regressCase("var x = a."+k, prog(nd(tVar, nil, decl(3, dot(a, k)))))
+		g.regressCase("a."+k+"\n++b", prog(es(dot(a, k)), es(nd(tUn, []int64{7}, b))))
+		g.regressCase("function f(){return a."+k+"\n}", prog(fn(nil, nd(tReturn, nil, dot(a, k)))))
+	}
+	// 8854305: a semicolon on a later line is the statement's terminator
+	g.regressCase("var a = 1\n;", prog(nd(tVar, nil, decl(0, one))))
+	g.regressCase("var a\r\n;b", prog(nd(tVar, nil, decl(0, nil)), es(b)))
+	g.regressCase("debugger\n;", prog(&N{Tag: tDebugger}))
+	g.regressCase("throw a\n;", prog(nd(tThrow, nil, a)))
+	g.regressCase("function f(a){ if (a) return\n; else return 2 }", prog(fn([]int64{0}, nd(tIf, nil, a, &N{Tag: tReturn}, nd(tReturn, nil, two)))))
+	g.regressCase("function f(a){ if (a) return a\u2028; else return 2 }", prog(fn([]int64{0}, nd(tIf, nil, a, nd(tReturn, nil, a), nd(tReturn, nil, two)))))
+	g.regressCase("if (a) var b = 1\n; else c", prog(nd(tIf, nil, a, nd(tVar, nil, decl(1, one)), es(c))))
+	g.regressCase("z: while (a) { if (b) break z\n; else continue z\n; }", prog(&N{Tag: tLabel, Vals: []int64{5}, Kids: []*N{nd(tWhile, nil, a,
+		&N{Tag: tBlock, Kids: []*N{nd(tIf, nil, b, &N{Tag: tBreak, Vals: []int64{5}}, &N{Tag: tContinue, Vals: []int64{5}})}})}}))
+	g.regressCase("var a = 1\n;;", prog(nd(tVar, nil, decl(0, one)), &N{Tag: tEmpty}))
+	// 18fccf6: the middle operand of ?: allows `in` inside a for initialiser; the last one does not
+	in := func(l, r *N) *N { return nd(tBin, []int64{opIn}, l, r) }
+	g.regressCase("for (x = a ? b in c : y;;) ;", prog(nd(tFor, nil, asg(id(3), nd(tCond, nil, a, in(b, c), id(4))), none, none, &N{Tag: tEmpty})))
+	g.regressCase("for (var x = a ? b in c : y, z = 1;;) ;", prog(nd(tFor, nil, nd(tVar, nil, decl(3, nd(tCond, nil, a, in(b, c), id(4))), decl(5, one)), none, none, &N{Tag: tEmpty})))
+	g.regressCase("for (var x = a ? b in c : y in z) ;", prog(nd(tForIn, nil, decl(3, nd(tCond, nil, a, in(b, c), id(4))), id(5), &N{Tag: tEmpty})))
+	g.regressCase("for (x = a ? b ? c in y : z : (b in c);;) ;", prog(nd(tFor, nil, asg(id(3), nd(tCond, nil, a, nd(tCond, nil, b, in(c, id(4)), id(5)), in(b, c))), none, none, &N{Tag: tEmpty})))
 	// 11: a multi-line comment containing a line terminator acts as one (7.4)
 	g.pinCase(11, "x = 1 /*\n*/ y = 2", &N{Tag: tProg, Kids: []*N{es(asg(id(3), one)), es(asg(id(4), two))}}, nil)
 	// 12: a numeric property name stands for ToString of its value (11.1.5)
